@@ -242,6 +242,64 @@ def argvPass (src : Ty) (s : Src) : Res Src :=
     | .int v => if st.isFloat ∨ va.isFloat then .fault else .ok (.int (wrap (tgtCTy src) (wrap st (wrap va v))))
     | .flt x => if st.isFloat ∧ va.isFloat then .ok (.flt (round st.fmt (round va.fmt x))) else .fault
 
+/-- content of a source object of scalar type `src` as the caller of a raw copy finds it in a target of the same type -/
+def srcOut (src : Ty) : Src → Out
+  | .int v => .int (v % src.card).toNat
+  | .flt x => .flt x
+
+/-- `mpt_value_convert({&val, src}, tgt, dest)` restricted to scalar source and target types: the converter
+    (return 0 for the same type, 3 otherwise); if it refuses, the raw copy of an identical type (the scalar traits have
+    neither init nor fini); else BadType -/
+def valueConvert (src tgt : Ty) (s : Src) (dest : Bool) : Res (Option Out × Nat) :=
+  match conv src tgt s dest with
+  | .ok (o, _) => .ok (o, if src = tgt then 0 else 3)
+  | .err _ =>
+    if src = tgt then .ok (if dest then some (srcOut src s) else none, 0)
+    else .err .BadType
+  | r => r
+
+/-- `mpt_iterator_consume(it, tgt, dest)` on an iterator whose current value has type `src`: `mpt_value_convert` into a
+    temporary, copy of the target's size; returns the source type code -/
+def consume (src tgt : Ty) (s : Src) (dest : Bool) : Res (Option Out × Nat) :=
+  match valueConvert src tgt s dest with
+  | .ok (o, _) => .ok (o, src.code)
+  | r => r
+
+/-- a value of type `src` passed through `...` to `mpt_process_vararg` and read with `mpt_iterator_consume` -/
+def argvConsume (src tgt : Ty) (s : Src) (dest : Bool) : Res (Option Out × Nat) :=
+  match argvPass src s with
+  | .ok s' => consume src tgt s' dest
+  | .err e => .err e
+  | .null => .null | .oob => .oob | .fault => .fault
+
+/-- coordinate `k` of `mpt_fpoint_set`: consumed with the k-th generated target code; anything but a direct 'f' store is
+    followed by a plain C assignment to the float member (rounds, may overflow to infinity) -/
+def fpointCoord (k : Nat) (src : Ty) (s : Src) : Res FVal :=
+  match Generated.fpointConsume[k]? with
+  | some (code, direct) =>
+    match Ty.ofCode code with
+    | some via =>
+      match consume src via s true with
+      | .ok (some (.flt y), _) => if via = .f ∧ direct then .ok y else .ok (round binary32 y)
+      | .ok _ => .fault
+      | .err e => .err e
+      | .null => .null | .oob => .oob | .fault => .fault
+    | none => .err .BadType
+  | none => .fault
+
+/-- `mpt_fpoint_set(&pt, src, NULL)` from an iterator over one or two values of type `src`: (x, y) -/
+def fpointSet (src : Ty) (vals : List Src) : Res (FVal × FVal) :=
+  match vals with
+  | [a] => match fpointCoord 0 src a with
+    | .ok x => .ok (x, x)
+    | .err e => .err e | .null => .null | .oob => .oob | .fault => .fault
+  | [a, b] => match fpointCoord 0 src a with
+    | .ok x => match fpointCoord 1 src b with
+      | .ok y => .ok (x, y)
+      | .err e => .err e | .null => .null | .oob => .oob | .fault => .fault
+    | .err e => .err e | .null => .null | .oob => .oob | .fault => .fault
+  | _ => .err .BadArgument
+
 /-- accept / refuse / undefined behaviour -/
 inductive Verdict where
   | accepted | refused | broken
@@ -473,6 +531,85 @@ def runFloatParser (p : TextParser) (r : StrToF) (s : List Nat) (dest : Bool) : 
     | _ => .null
   | .err e => .err e
   | .null => .null | .oob => .oob | .fault => .fault
+
+/-! ### `strtof/strtod/strtold` on decimal numerals
+
+The scanner takes the longest prefix of the form `ws* [+-]? (D+[.D*] | .D+) ([eE][+-]?D+)?` and returns its parts;
+the value is the correctly rounded value of the number the parts denote.  Hexadecimal numerals, `inf` and `nan` are
+not modelled (`decimalOnly` tells whether a text could start one of them). -/
+
+/-- optional sign -/
+def splitSign (s : List Nat) : List Nat × List Nat :=
+  match s with
+  | c :: r => if c = 43 ∨ c = 45 then ([c], r) else ([], s)
+  | [] => ([], s)
+
+/-- exponent part: `(emark, esign, digits, rest)`; all empty when there is no complete exponent -/
+def splitExp (s : List Nat) : List Nat × List Nat × List Nat × List Nat :=
+  match s with
+  | c :: r =>
+    if c = 101 ∨ c = 69 then
+      let (sg, r1) := splitSign r
+      let ds := r1.takeWhile isDigit
+      if ds = [] then ([], [], [], s) else ([c], sg, ds, r1.dropWhile isDigit)
+    else ([], [], [], s)
+  | [] => ([], [], [], s)
+
+/-- fraction part: `(dot, digits, rest)` -/
+def splitFrac (s : List Nat) : List Nat × List Nat × List Nat :=
+  match s with
+  | c :: r => if c = 46 then ([46], r.takeWhile isDigit, r.dropWhile isDigit) else ([], [], s)
+  | [] => ([], [], s)
+
+def scanDec (s : List Nat) : Option (DecParts × List Nat) :=
+  let sg := splitSign (s.dropWhile isSpace)
+  let ip := sg.2.takeWhile isDigit
+  let fr := splitFrac (sg.2.dropWhile isDigit)
+  let ex := splitExp fr.2.2
+  if ip = [] ∧ fr.2.1 = [] then none else
+  some ({ ws := s.takeWhile isSpace, sign := sg.1, ip := ip, dot := fr.1, fp := fr.2.1,
+          emark := ex.1, esign := ex.2.1, ed := ex.2.2.1 }, ex.2.2.2)
+
+/-- the text (after white space and sign) could start a hexadecimal numeral, an infinity or a NaN -/
+def decimalOnly (s : List Nat) : Bool :=
+  let s2 := (splitSign (s.dropWhile isSpace)).2
+  match s2 with
+  | a :: b :: _ => !(a = 48 && (b = 120 || b = 88)) && !(a = 105 || a = 73 || a = 110 || a = 78)
+  | [a] => !(a = 105 || a = 73 || a = 110 || a = 78)
+  | [] => true
+
+def isZeroOrInf : FVal → Bool
+  | .fin _ m _ => m = 0
+  | .inf _ => true
+  | .nan => false
+
+def strtoDec (fmt : Fmt) (s : List Nat) : StrToF :=
+  match scanDec s with
+  | none => { value := .fin false 0 0, consumed := 0, erange := false, overflow := false }
+  | some (p, _) =>
+    let v := roundDec fmt p.neg p.mant p.exp10
+    { value := v, consumed := p.text.length,
+      erange := (match v with | .inf _ => true | _ => false) || (p.mant != 0 && isZeroOrInf v),
+      overflow := match v with | .inf _ => true | _ => false }
+
+/-- the `mpt_convert_number` dispatch for the floating-point target codes -/
+def numberFloatTarget (tgt : Ty) : Option TextParser :=
+  match Generated.Text.numberDispatch.find? (·.1 = tgt.code) with
+  | some (_, fn, _) => Generated.Text.parsers.find? (·.name = fn)
+  | none => none
+
+/-- `mpt_convert_number(from, type, dest)` for `'f'`, `'d'`, `'e'` with `strto` standing for the libc scanner -/
+def convertNumberF (tgt : Ty) (strto : List Nat → StrToF) (s : List Nat) (dest : Bool) : Res (Option FVal × Nat) :=
+  match numberFloatTarget tgt with
+  | some p => runFloatParser p (strto s) s dest
+  | none => .err .BadType
+
+/-- `mpt_convert_string(from, type, dest)` for the floating-point target codes -/
+def convertStringF (tgt : Ty) (strto : List Nat → StrToF) (s : List Nat) (dest : Bool) : Res (Option FVal × Nat) :=
+  if s = [] then .ok (none, 0) else
+  match convertNumberF tgt strto (s.dropWhile isSpace) dest with
+  | .ok (o, n) => if n = 0 then .ok (none, 0) else .ok (o, (s.takeWhile isSpace).length + n)
+  | r => r
 
 /-- `mpt_convert_string(from, type, dest)` for the integer target codes -/
 def convertString (tgt : Ty) (s : List Nat) (dest : Bool) : TextRes :=
